@@ -514,10 +514,49 @@ fn gen_nested_macro(r: &mut Rng) -> Option<(String, String, String, String)> {
     Some(("nestedmacro".to_string(), s1, s2, format!("{call} nested {depth} deep, {what}; by hand: {exp}")))
 }
 
+/// a named function whose body sets its OWN un-fill value (°⬚v F, or the undo half of ⍜⬚v F G),
+/// called inside 0-2 enclosing ⬚ contexts, against its body written in place.  The value is set
+/// inside the function, so this is not the documented fill-crossing exception: results must agree.
+/// (search only: the call is under a fill, where the structural validator keeps it)
+fn gen_unfill(r: &mut Rng) -> (String, String, String, String) {
+    const BODIES: [(&str, &[&str]); 8] = [
+        ("°⬚0↙", &["[1 2 3 0 0]", "[4 0]", "[0 0 0]", "[1 2]", "[[1 0][0 0]]"]),
+        ("°⬚1↙", &["[1 2 3 1 1]", "[1 1]", "[2 1 3]"]),
+        ("°⬚@ ↙", &["\"ab  \"", "\"  \"", "\"abc\""]),
+        ("°⬚0▽", &["[1 1 0 2 2]", "[0 0 1]", "[3 3 3]"]),
+        ("⍜⬚0↙(+1)", &["5 [1 2 3]", "2 [1 2 3]", "4 []"]),
+        ("⍜⬚0⊏(+1)", &["[0 5] [1 2 3]", "[1 1] [1 2 3]"]),
+        ("⍜⬚0↙⇌", &["5 [1 2 3]", "1 [1 2 3]"]),
+        ("°⬚0⊂", &["[0 1 2]", "[5]"]),
+    ];
+    let (body, args) = *r.pick(&BODIES);
+    let arg = *r.pick(args);
+    let depth = r.below(3);
+    let two_level = r.chance(1, 3);
+    let mut open = String::new();
+    let mut close = String::new();
+    for d in 0..depth {
+        open.push_str(&format!("⬚{}(", if d == 0 { r.range(5, 9).to_string() } else { "@x".to_string() }));
+        close.push(')');
+    }
+    let defs = if two_level { format!("Fa ← {body}\nFb ← ∘ Fa\n") } else { format!("Fa ← {body}\n") };
+    let name = if two_level { "Fb" } else { "Fa" };
+    let inl = if two_level { format!("(∘ ({body}))") } else { format!("({body})") };
+    (
+        "unfill".to_string(),
+        format!("# Experimental!\n{defs}{open}{name} {arg}{close}\n"),
+        format!("# Experimental!\n{defs}{open}{inl} {arg}{close}\n"),
+        format!("{name} ← {body} (sets its own un-fill) called inside {depth} enclosing fill context(s)"),
+    )
+}
+
 /// one (P, P') pair of a family; None when the transformation does not apply
 fn gen_pair(r: &mut Rng, fam: usize, arr: bool) -> Option<(String, String, String, String)> {
     if fam == 5 {
         return gen_nested_macro(r);
+    }
+    if fam == 6 {
+        return Some(gen_unfill(r));
     }
     let p = gen_prog(r, arr);
     if fam != 4 && !defs_are_functions(&p) {
@@ -708,7 +747,7 @@ fn main() {
             let mut samples = 0;
             while done < n && tries < n * 30 {
                 tries += 1;
-                let fam = if r.chance(1, 25) { 4 } else if r.chance(1, 7) { 5 } else { r.below(4) };
+                let fam = if r.chance(1, 25) { 4 } else if r.chance(1, 7) { 5 } else if r.chance(1, 10) { 6 } else { r.below(4) };
                 let arr = r.chance(1, 3);
                 let Some((fname, s1, s2, what)) = gen_pair(&mut r, fam, arr) else { continue };
                 let a = run_msg(&s1);
